@@ -950,6 +950,8 @@ fn init_tree(root: &Path, only_contracts: bool) {
         format!("path = './proj'\noptimizations = [{}]\nvulnerabilities = [{}]\nqa = [{}]\n", l(crate::dets::OPT_NAMES), l(crate::dets::VULN_NAMES), l(crate::dets::QA_NAMES)),
     )
     .unwrap();
+    // a configuration that selects nothing: the run still writes its (empty) report over whatever was there
+    std::fs::write(root.join("conf").join("empty.toml"), "path = './proj'\noptimizations = []\nvulnerabilities = []\nqa = []\n").unwrap();
 }
 
 pub fn c18(tier: Tier) -> i32 {
@@ -969,6 +971,8 @@ pub fn c18(tier: Tier) -> i32 {
     }
     // run from the parent directory through a configuration file that lives elsewhere
     acts.push(Act::Run(100));
+    // ... and through a configuration file whose three lists are empty
+    acts.push(Act::Run(101));
     for e in 0..5 {
         acts.push(Act::Edit(e));
     }
@@ -1031,7 +1035,7 @@ pub fn c18(tier: Tier) -> i32 {
             match a {
                 Act::Run(c) => {
                     let before = snapshot(&root);
-                    let via_toml = *c == 100;
+                    let via_toml = *c >= 100;
                     let cwd_rel = if via_toml { "" } else { CWDS[*c] };
                     let cwd = root.join(cwd_rel);
                     if !cwd.is_dir() {
@@ -1045,7 +1049,7 @@ pub fn c18(tier: Tier) -> i32 {
                         "proj" => ".",
                         _ => "..",
                     };
-                    let run_args: Vec<&str> = if via_toml { vec!["--toml", "conf/cfg.toml"] } else { vec!["--path", rel_proj] };
+                    let run_args: Vec<&str> = if *c == 101 { vec!["--toml", "conf/empty.toml"] } else if via_toml { vec!["--toml", "conf/cfg.toml"] } else { vec!["--path", rel_proj] };
                     let out = run_bin(&bin, &cwd, &run_args);
                     runs += 1;
                     let after = snapshot(&root);
